@@ -36,7 +36,7 @@ static bool gen_c12(uint64_t seed, const std::string &tier, uint64_t i, Plan &p)
     p.knobs.set("stick", 1.0).set("split_p", 0.0);
     Json d = Json::obj(); d.set("op", "deliver").set("id", "d1").set("sender", c12_sender(r)).set("msg", c12_message(r)).set("local", r.pick(std::vector<std::string>{"user1", "user1-ext", "us\ner"})).set("wait", true);
     p.ops.push(d);
-    int kind = (int)r.below(8); int site = (int)r.range(1, 16);
+    int kind = (int)r.below(10); int site = (int)r.range(1, 16);
     Fault f; f.actor = r.chance(0.85) ? "qmail-local/child" : "qmail-local#"; f.call = C_ANY; f.nth = site;
     switch (kind) {
       case 0: lab = "fault-free"; break;
@@ -47,6 +47,8 @@ static bool gen_c12(uint64_t seed, const std::string &tier, uint64_t i, Plan &p)
       case 5: f.kind = "signal"; f.arg = 14; p.faults.push_back(f); lab = "SIGALRM"; break;
       case 6: f.kind = "short"; f.arg = 1 + (int64_t)r.below(5); p.faults.push_back(f); lab = "short-io"; break;
       case 7: { Json pre = Json::arr(); pre.push("Maildir/tmp/" + std::to_string(start) + ".302.sim.example"); if (r.chance(0.5)) pre.push("Maildir/tmp/" + std::to_string(start + 2) + ".302.sim.example"); if (r.chance(0.3)) pre.push("Maildir/tmp/" + std::to_string(start + 4) + ".302.sim.example"); home.set("precreate_tmp", pre); lab = "tmp-name-collision"; break; }
+      case 8: f.call = C_LINK; f.nth = 1; f.kind = "error"; f.err = r.pick(std::vector<int>{EEXIST, EEXIST, EMLINK, ENOSPC, EACCES}); p.faults.push_back(f); lab = "link-error"; break;   // EEXIST: the name in new/ is taken (pid reuse, NFS retransmission)
+      case 9: { Json pre = Json::arr(); pre.push("Maildir/new/" + std::to_string(start) + ".302.sim.example"); if (r.chance(0.5)) pre.push("Maildir/new/" + std::to_string(start + 1) + ".302.sim.example"); home.set("precreate_tmp", pre); home.set("foreign_new", pre); lab = "new-name-taken"; break; }
     }
     lab = "maildir " + lab + "@" + std::to_string(site);
   } else if (mode <= 7) {   // mbox: one delivery, failing write/fsync, or none
@@ -86,7 +88,7 @@ static std::string c13_instr(Rng &r, bool allow_actions) {
     case 5: return "&a@b.example  \t";
     case 6: return "./Maildir/";
     case 7: return "./Mailbox";
-    case 8: return "|exit " + std::to_string(r.pick(std::vector<int>{0, 0, 0, 99, 100, 111, 64, 65, 70, 76, 77, 78, 112, 1, 2, 63, 66, 98, 101, 110, 113, 127, 255}));
+    case 8: return "|exit " + std::to_string(r.pick(std::vector<int>{0, 0, 0, 99, 99, 99, 100, 100, 111, 111, 64, 65, 70, 76, 77, 78, 112, 1, 2, 63, 66, 98, 101, 110, 113, 127, 255}));   // the codes with a documented meaning of their own are drawn more often
     case 9: return "|readall; exit 0";
     case 10: return "|cat>>out" + std::to_string(r.below(3)) + "; exit 0";
     case 11: return "|kill";
@@ -113,7 +115,12 @@ static bool gen_c13(uint64_t seed, const std::string &tier, uint64_t i, Plan &p)
     int fm = (int)r.below(12); f.set("mode", fm == 0 ? 0622 : fm == 1 ? 0700 : fm == 2 ? 0602 : fm == 3 ? 0640 : 0600);
     bool xbit = fm == 1;
     std::string body; int nl = (int)r.range(0, 5);
-    if (r.chance(0.1)) body = ""; else { for (int l = 0; l < nl; l++) body += c13_instr(r, !xbit || r.chance(0.3)) + "\n"; if (r.chance(0.15) && !body.empty()) body.pop_back(); }
+    if (r.chance(0.1)) body = "";
+    else if (r.chance(0.15)) {   // deliveries and forwards, then a program with one of the special exit codes, then more lines: what came before must still count (99) or not (100, 111)
+      int pre = (int)r.range(1, 3); for (int l = 0; l < pre; l++) body += r.pick(std::vector<std::string>{"&fwd1@r.example", "fwd2@r.example", "./Mailbox", "./Maildir/", "|cat>>out1; exit 0"}) + "\n";
+      body += "|exit " + std::to_string(r.pick(std::vector<int>{99, 99, 100, 111, 0})) + "\n";
+      int post = (int)r.range(0, 2); for (int l = 0; l < post; l++) body += r.pick(std::vector<std::string>{"&fwd3@r.example", "./Mailbox", "|cat>>out2; exit 0"}) + "\n"; }
+    else { for (int l = 0; l < nl; l++) body += c13_instr(r, !xbit || r.chance(0.3)) + "\n"; if (r.chance(0.15) && !body.empty()) body.pop_back(); }
     f.set("content", body); files.push(f);
   }
   home.set("files", files); Json md = Json::arr(); md.push("Maildir"); home.set("maildirs", md);
